@@ -35,10 +35,20 @@ import (
 	"strings"
 	"sync"
 	"sync/atomic"
+	"syscall"
 	"time"
 
 	"verif/mc"
 )
+
+// cpuTime: user+system CPU time consumed by this process so far.
+func cpuTime() time.Duration {
+	var ru syscall.Rusage
+	if err := syscall.Getrusage(syscall.RUSAGE_SELF, &ru); err != nil {
+		return 0
+	}
+	return time.Duration(ru.Utime.Nano() + ru.Stime.Nano())
+}
 
 // seqs returns all sequences over alphabet with minLen <= length <= maxLen.
 func seqs(alphabet []int, minLen, maxLen int) [][]int {
@@ -110,6 +120,35 @@ func withExecH(scheds [][]event, fins []int) [][]event {
 				n = append(n, event{Kind: evExecH, Fin: f})
 				n = append(n, s[pos:]...)
 				out = append(out, n)
+			}
+		}
+	}
+	return out
+}
+
+// withHandleExec: one execution of a finisher directly on a live reusable handle — the base handle H at
+// every gap, the handle made from fork A (FinA must be fHandle) at every gap after "exec A".
+func withHandleExec(scheds [][]event, fins []int) [][]event {
+	var out [][]event
+	for _, s := range scheds {
+		aIsHandleFrom := len(s) + 1
+		for i, e := range s {
+			if e.Kind == evExecA {
+				aIsHandleFrom = i + 1
+			}
+		}
+		for pos := 0; pos <= len(s); pos++ {
+			for _, f := range fins {
+				kindsAt := []byte{evExecH}
+				if pos >= aIsHandleFrom {
+					kindsAt = append(kindsAt, evExecHA)
+				}
+				for _, k := range kindsAt {
+					n := append([]event{}, s[:pos]...)
+					n = append(n, event{Kind: k, Fin: f})
+					n = append(n, s[pos:]...)
+					out = append(out, n)
+				}
 			}
 		}
 	}
@@ -189,8 +228,9 @@ func buildPlans(tier string) []*plan {
 		[2]int{fCreate, fCreate}, [2]int{fCreate, fHandle}, [2]int{fHandle, fCreate},
 		[2]int{fCount, fFind}, [2]int{fFind, fCount}, [2]int{fCount, fHandle},
 		[2]int{fFirst, fFirst}, [2]int{fFirst, fHandle},
-		[2]int{fDelete, fDelete}, [2]int{fHandle, fDelete}))
-	all := pairs(fFind, fFirst, fCount, fUpdate, fDelete, fCreate, fHandle)
+		[2]int{fDelete, fDelete}, [2]int{fHandle, fDelete},
+		[2]int{fPluck, fHandle}, [2]int{fFirstOrInit, fHandle}, [2]int{fSave, fHandle}, [2]int{fTake, fScan}, [2]int{fLast, fHandle}))
+	all := dedupPairs(append(pairs(fFind, fFirst, fCount, fUpdate, fDelete, fCreate, fHandle), core...))
 	few := [][2]int{{fHandle, fHandle}, {fFind, fUpdate}, {fUpdate, fCreate}, {fCount, fFirst}, {fDelete, fFind}, {fCreate, fHandle}}
 
 	// P1: same kind — the base and both forks are drawn from the variants of one clause kind
@@ -203,7 +243,7 @@ func buildPlans(tier string) []*plan {
 			wide = opsOf(k, tThor)
 		}
 		big := len(quickV) > 2 // WHERE
-		fins := core
+		fins := core[:21]
 		if big && !thorough {
 			fins = core[:9]
 		}
@@ -256,6 +296,51 @@ func buildPlans(tier string) []*plan {
 		plans = append(plans, &plan{Name: "P0-open", Bases: seqs(nil, 0, 0), Makers: []int{mkOpen, mkContext, mkDebug}, ForksA: seqs(al, 1, 1), ForksB: seqs(al, 1, 1), Fins: f0, Scheds: baseScheds(), Modes: both})
 	}
 
+	// PH: every finisher of the alphabet executed directly ON a live reusable handle (the base handle at every
+	// gap, the handle made from fork A after it exists), the handle's base chain ranging over every clause
+	// kind; then forks and probes of the same handles as usual. Dry (12 finishers) and on SQLite (9 read-only ones).
+	{
+		where := opByLabel[`Where("name = ?","w")`]
+		order := opByLabel[`Order("name")`]
+		limit := opByLabel[`Limit(5)`]
+		for _, k := range kinds {
+			v := opsOf(k, tCross)
+			if len(v) > 3 {
+				v = v[:3]
+			}
+			if len(v) == 0 {
+				continue
+			}
+			bases := seqs(v, 1, 2)
+			if thorough {
+				bases = union(seqs(v, 1, 3), seqs(opsOf(k, tThor), 1, 1))
+			}
+			fa := union([][]int{{v[0]}}, [][]int{{where}, {order}})
+			fb := union([][]int{{v[len(v)-1]}}, [][]int{{limit}})
+			fins := [][2]int{{fHandle, fFind}}
+			if thorough {
+				fins = [][2]int{{fHandle, fFind}, {fHandle, fUpdate}}
+			}
+			scheds := [][]event{sAaBb, sABab}
+			plans = append(plans, &plan{Name: "PH-" + k, Bases: bases, Makers: []int{mkSession}, ForksA: fa, ForksB: fb, Fins: fins, Scheds: withHandleExec(scheds, dryHandleFins), Modes: both, PerBase: true})
+			plans = append(plans, &plan{Name: "PHm-" + k, Bases: bases, Makers: []int{mkContext, mkDebug}, ForksA: fa, ForksB: fb, Fins: fins[:1], Scheds: withHandleExec(scheds[:1], dryHandleFins), Modes: []bool{true}, PerBase: true})
+			if k == "RETURNING" || k == "ONCONFLICT" || k == "LOCKING" {
+				continue
+			}
+			rfins := [][2]int{{fHandle, fFind}}
+			plans = append(plans, &plan{Name: "PHR-" + k, Real: true, Bases: bases, Makers: []int{mkSession, mkBegin}, ForksA: fa, ForksB: fb[:1], Fins: rfins, Scheds: withHandleExec(scheds[:1], realHandleFins), Modes: both, PerBase: true})
+		}
+		// two-call bases over the whole quick alphabet (any two kinds), the handle executed right after it was made
+		// and once more after a first chain was executed
+		q := opsUpTo(tQuick)
+		var sc [][]event
+		for _, f := range dryHandleFins {
+			sc = append(sc, []event{{Kind: evExecH, Fin: f}, {Kind: evBuildA}, {Kind: evExecA}, {Kind: evBuildB}, {Kind: evExecB}})
+			sc = append(sc, []event{{Kind: evBuildA}, {Kind: evExecA}, {Kind: evExecH, Fin: f}, {Kind: evBuildB}, {Kind: evExecB}})
+		}
+		plans = append(plans, &plan{Name: "PH2-any-two-kinds", Bases: seqs(q, 2, 2), Makers: []int{mkSession}, ForksA: [][]int{{where}}, ForksB: [][]int{{limit}}, Fins: [][2]int{{fFind, fUpdate}}, Scheds: sc, Modes: []bool{true}, PerBase: true})
+	}
+
 	// P2: cross kind — base of <=1 call, forks of one call, any kinds
 	crossTier := tCross
 	if thorough {
@@ -263,9 +348,6 @@ func buildPlans(tier string) []*plan {
 	}
 	cross := opsUpTo(crossTier)
 	p2scheds := [][]event{sABab, sAaBb}
-	if thorough {
-		p2scheds = baseScheds()
-	}
 	plans = append(plans, &plan{Name: "P2-cross", Bases: seqs(cross, 0, 1), Makers: []int{mkSession}, ForksA: seqs(cross, 1, 1), ForksB: seqs(cross, 1, 1), Fins: few[:2], Scheds: p2scheds, Modes: both})
 	if thorough {
 		q := opsUpTo(tQuick)
@@ -496,14 +578,25 @@ func main() {
 		return
 	}
 
+	// The budget is counted in CPU time of this process (16 workers x the wall budget of the guide), so that
+	// the verdict does not depend on how many other checks share the machine; a wall-clock cap ends the run
+	// anyway (exit 0/1 as found so far, exhaustive:false).
 	budget := 80 * time.Second
+	wallCap := 6 * time.Minute
 	if args.Tier == "thorough" {
 		budget = 9*time.Minute + 30*time.Second
+		wallCap = 30 * time.Minute
 	}
 	if b, err := time.ParseDuration(os.Getenv("C06_BUDGET")); err == nil && b > 0 {
 		budget = b // development aid
 	}
-	deadline := run.Start.Add(budget)
+	cpuBudget := budget * 16
+	deadline := run.Start.Add(wallCap)
+	if os.Getenv("C06_BUDGET") != "" {
+		deadline = run.Start.Add(budget)
+		cpuBudget = 1 << 60
+	}
+	cpuStart := cpuTime()
 
 	// unlisted violations: at most 300 per class (= input-side tag list) are handed to the run, and the
 	// enumeration stops after 2000 in total, so that every class met before that gets reported
@@ -544,7 +637,7 @@ func main() {
 				if int(n) >= len(units) {
 					break
 				}
-				if time.Now().After(deadline) {
+				if time.Now().After(deadline) || (n%16 == 0 && cpuTime()-cpuStart > cpuBudget) {
 					atomic.StoreInt32(&timedOut, 1)
 					break
 				}
@@ -599,16 +692,24 @@ func main() {
 									cl.Count++
 									skip := !cl.Known && cl.Count > maxPerClass
 									mu.Unlock()
+									// the worker's long-lived handles may be damaged by what just happened
+									w.dryRoot = nil
+									if w.realEnv != nil {
+										w.realEnv.Close()
+										w.realEnv = nil
+									}
+									isUnknown := skip
 									if !skip {
 										if run.Violation(tg, f2.message(hs), hs.JSON()) {
-											if atomic.AddInt64(&unknown, 1) >= maxUnknown {
-												atomic.StoreInt32(&stop, 1)
-											}
+											isUnknown = true
 										} else {
 											mu.Lock()
 											cl.Known = true
 											mu.Unlock()
 										}
+									}
+									if isUnknown && atomic.AddInt64(&unknown, 1) >= maxUnknown {
+										atomic.StoreInt32(&stop, 1)
 									}
 									if atomic.LoadInt32(&stop) != 0 {
 										break
@@ -677,6 +778,7 @@ func main() {
 	run.Assume("intermediate chain objects (clone == 0) are used linearly; forks happen only at reusable handles (gorm.Open, Session, WithContext, Debug, Begin) — the only exception is the Count-then-Find idiom on one chain, executed on SQLite")
 	run.Assume("the isolated replay on a fresh gorm.Open is the reference: a defect that changes a chain even when it is the only one ever built is out of scope (C02/C19 look at that)")
 	run.Assume("Count-then-Find on one chain object is only checked for chains without pending Scopes (scopes run and are consumed during the Count, and Count's restore of ORDER BY then discards an ORDER BY added by the scope: observed, reported, outside the property because the chain is not a reusable handle)")
+	run.Assume("updates write the new values back into the Model value by design; that value belongs to the caller and is shared by all chains of a handle, so Save (the only finisher of the alphabet that writes a primary key) is given a private Model(&User{}) when the spec carries a Model call")
 	run.Assume("Statement.Settings (Set/InstanceSet), Attrs/Assign (C16), Raw/Exec, MapColumns, Clauses(clause.From{..}) and prepared-statement sessions are outside the alphabet")
 	pprof.StopCPUProfile()
 	run.Finish(map[string]interface{}{
@@ -685,7 +787,7 @@ func main() {
 		"traces_validated_against_impl":     total.transitions,
 		"evaluations":                       total.histories,
 		"distinct_nontrivial":               setNontrivial.len(),
-		"rule":                              "histories = base chain (<=3 calls) -> handle maker (Session | WithContext | Debug | Begin on SQLite | the gorm.Open handle itself) -> two forks (<=2 calls each) x finisher pair (Find First Count Update Delete Create | fork turned into a handle and probed | on SQLite: Find Count First, Count-then-Find on one chain) x schedule {aBuild bBuild aExec bExec | aBuild bBuild bExec aExec | aBuild aExec bBuild bExec} (forks range over ordered pairs, so the mirrored schedules are included) x probe mode {after every transition | only at the end} [+ one execution of the handle itself at a gap]. Blocks: P0 forks from the Open handle; P1 base and both forks from the variants of one clause kind (P1m other handle makers, P1h handle executed in between); P2 one call each from any kinds; P3 two kinds mixed; P4 (thorough) every 3-call base over the quick alphabet with one-call forks from the kinds in the base; PR the same on SQLite with real queries. distinct_nontrivial = distinct (base, maker, fork, finisher) specs with a non-empty fork whose output was compared with its isolated replay on a fresh gorm.Open; states = distinct handle-tree specs (base+maker; per fork: not built / built / finished / handle + its calls + finisher); transitions = handle made, fork built, fork executed, handle executed — each executed on the implementation and followed by the oracle",
+		"rule":                              "histories = base chain (<=3 calls) -> handle maker (Session | WithContext | Debug | Begin on SQLite | the gorm.Open handle itself) -> two forks (<=2 calls each) x finisher pair (Find First Take Last Count Pluck Scan FirstOrInit Update Delete Create Save | fork turned into a handle and probed | on SQLite: Find Count First, Count-then-Find on one chain) x schedule {aBuild bBuild aExec bExec | aBuild bBuild bExec aExec | aBuild aExec bBuild bExec} (forks range over ordered pairs, so the mirrored schedules are included) x probe mode {after every transition | only at the end} [+ one execution of the handle itself at a gap]. Blocks: P0 forks from the Open handle; P1 base and both forks from the variants of one clause kind (P1m other handle makers, P1h handle executed in between); PH/PHm/PHR/PH2 every finisher of the alphabet (Find First Take Last Count Pluck Scan FirstOrInit Update Delete Create Save; on SQLite the read-only ones + Rows) executed directly ON a live reusable handle — the base handle at every gap of the schedule, the handle made from fork A once it exists — with the handle's base chain (1-2 calls, thorough 1-3) ranging over every clause kind and, in PH2, over every 2-call chain of the quick alphabet, followed by forks and probes of the same handle; P2 one call each from any kinds; P3 two kinds mixed; P4 (thorough) every 3-call base over the quick alphabet with one-call forks from the kinds in the base; PR the same on SQLite with real queries. distinct_nontrivial = distinct (base, maker, fork, finisher) specs with a non-empty fork whose output was compared with its isolated replay on a fresh gorm.Open; states = distinct handle-tree specs (base+maker; per fork: not built / built / finished / handle + its calls + finisher); transitions = handle made, fork built, fork executed, handle executed — each executed on the implementation and followed by the oracle",
 		"samples":                           samples.List(),
 		"exhaustive":                        exhaustive,
 		"violating_histories_by_input_tags": classCounts,
